@@ -1,7 +1,7 @@
 (* C01 - Clean channel: each accepted object arrives byte-exact, once, with its metadata. *)
 From FluteV Require Import Model.Partition Model.BlockEnc Model.SenderCtl Model.ObjRecv Model.Recv
   Spec.RecvSpec Spec.SessionSpec Spec.C07Spec Spec.C08Spec Proofs.BlockEncProofs Proofs.SenderProofs Proofs.RecvProofs Proofs.SessionProofs
-  Proofs.C08Full Proofs.C02Full Proofs.C01Full.
+  Proofs.C08Full Proofs.C02Full Proofs.C01Full Proofs.C01Esi.
 Open Scope N_scope.
 
 (* Object-level composition theorem, PROVED for the No-Code scheme without content encoding
@@ -16,10 +16,10 @@ Open Scope N_scope.
    ([receive]; the entry carries an OTI with the sender's scheme, E and B, the transfer length, the MD5).
    Premises about the environment, those of C02_nocode_recoverable_delivers: the builder stores the object,
    open() and every write() succeed, the MD5 is absent or matches, L <= max_size_allocated, at most 4097
-   source blocks.  Premises about the wire: E < 2^16 (a u16 in the implementation) and
-   nocode_esi_fits: the large blocks of the partition have at most 65536 symbols, so that every ESI fits its
-   16-bit field (true whenever B <= 65536; FALSE configurations are accepted by FileDesc::new, see
-   C01_esi_wraps_refuted).
+   source blocks.  Premise about the wire: E < 2^16 (a u16 in the implementation).  That every ESI fits its
+   16-bit field (nocode_esi_fits: the large blocks of the partition have at most 65536 symbols) is no longer
+   a premise: since the fix D39 it follows from filedesc_accepts (C01_accepts_esi_fits below,
+   Proofs/C01Esi.v; before the fix FALSE configurations were accepted, see C01_esi_wraps_refuted).
    Conclusion: the object is Completed; the writer's log is exactly: builder, open, writes whose concatenation
    is [content], one complete (ShapeDone); hence complete_exact, the executable C01 predicate with one
    completed copy (the metadata are not modelled at this level: [m] is whatever the session level handed
@@ -32,7 +32,7 @@ Theorem C01_clean_channel_nocode :
   forall rep raptor_src c content oti E toi max fid files inst md5,
   c_fec c = NoCode -> filedesc_accepts c = true -> c_tlen c = lenN content -> 0 < c_tlen c ->
   (1 <= c_window c)%nat ->
-  c_e c < 65536 -> nocode_esi_fits c = true ->
+  c_e c < 65536 ->
   oti_matches c oti -> fdt_entry_for files inst toi oti (c_tlen c) md5 ->
   writer_accepts E toi -> writes_succeed E toi -> md5_good E content md5 ->
   c_tlen c <= max -> nb_blocks_of oti (c_tlen c) <= 4097 ->
@@ -44,7 +44,7 @@ Theorem C01_clean_channel_nocode :
   /\ forall m, complete_exact content (m, calls_of (toi, 0%nat) (c_log cx)) = true
                /\ P_C01_object m content 1 [(m, calls_of (toi, 0%nat) (c_log cx))] = true
                /\ P_C02_object true content [(m, calls_of (toi, 0%nat) (c_log cx))] = true.
-Proof. exact clean_channel_delivered. Qed.
+Proof. exact clean_channel_delivered'. Qed.
 Print Assumptions C01_clean_channel_nocode.
 
 (* the same after any genuine packets without the close-object flag (any order, any duplication; e.g. what
@@ -54,14 +54,14 @@ Theorem C01_clean_channel_nocode_after_earlier_packets :
   forall rep raptor_src c content oti E toi max fid files inst md5,
   c_fec c = NoCode -> filedesc_accepts c = true -> c_tlen c = lenN content -> 0 < c_tlen c ->
   (1 <= c_window c)%nat ->
-  c_e c < 65536 -> nocode_esi_fits c = true ->
+  c_e c < 65536 ->
   oti_matches c oti -> fdt_entry_for files inst toi oti (c_tlen c) md5 ->
   writer_accepts E toi -> writes_succeed E toi -> md5_good E content md5 ->
   c_tlen c <= max -> nb_blocks_of oti (c_tlen c) <= 4097 ->
   forall pre, Forall (fun q => genuine_pkt oti content q = true) pre ->
               Forall (fun q => a_close_obj q = false) pre ->
   delivered E fid files inst toi max content (pre ++ wire_pkts rep raptor_src c content toi).
-Proof. exact prefix_then_transfer_delivered. Qed.
+Proof. exact prefix_then_transfer_delivered'. Qed.
 Print Assumptions C01_clean_channel_nocode_after_earlier_packets.
 
 (* the bridge between the two models: what the sender model emits satisfies, besides P_C08_transfer, the
@@ -80,7 +80,7 @@ Print Assumptions C01_sender_nocode_exact.
    genuine for the receiver, with the same (sbn, esi) and close flags, covering every source symbol *)
 Theorem C01_wire_bridge : forall c content oti toi al as_ nal n,
   c_fec c = NoCode -> filedesc_accepts c = true -> c_tlen c = lenN content -> 0 < c_tlen c ->
-  oti_matches c oti -> nocode_esi_fits c = true ->
+  oti_matches c oti ->
   block_partitioning (c_b c) (c_tlen c) (c_e c) = (al, as_, nal, n) ->
   forall ps, P_C08_transfer c content None ps = true -> P_C08_nocode_exact c content ps = true ->
   (Forall (fun q => genuine_pkt oti content q = true) (map (to_apkt toi) ps)
@@ -88,10 +88,17 @@ Theorem C01_wire_bridge : forall c content oti toi al as_ nal n,
    /\ map a_close_obj (map (to_apkt toi) ps) = map p_close ps)
   /\ (forall s i, s < n -> i < nominal_syms al as_ nal s -> In (s, i) (map (fun p => (p_sbn p, p_esi p)) ps))
   /\ exists body lst, ps = body ++ [lst] /\ Forall (fun p => p_close p = false) body /\ p_close lst = c_closable c.
-Proof. exact wire_bridge. Qed.
+Proof. exact wire_bridge'. Qed.
 Print Assumptions C01_wire_bridge.
 
-(* the premise nocode_esi_fits (D39): E = 1, B = 65537, L = 65537 was accepted by FileDesc::new until the fix
+(* every ESI of an accepted non-empty No-Code object fits the 16-bit field (D39 fixed): FileDesc::new checks
+   every block length that exists; without large blocks (nb_a_large = 0) a_large = a_small *)
+Theorem C01_accepts_esi_fits : forall c,
+  c_fec c = NoCode -> filedesc_accepts c = true -> 0 < c_tlen c -> nocode_esi_fits c = true.
+Proof. exact accepts_esi_fits. Qed.
+Print Assumptions C01_accepts_esi_fits.
+
+(* the former premise nocode_esi_fits (D39): E = 1, B = 65537, L = 65537 was accepted by FileDesc::new until the fix
    (it is now refused: first conjunct); the
    symbol with ESI 65536 goes out with payload id 00 00 00 00 = (sbn 0, esi 0), and no packet list whatsoever
    put on the wire by to_apkt is recoverable for the receiver *)
